@@ -60,7 +60,7 @@ fn raft_strategy() -> impl Strategy<Value = RaftCase> {
         // an optional race-free prefix that gets a leader elected and an entry committed, so that
         // later candidates have something to be behind (same idea as the repository's tests)
         any::<bool>(),
-        proptest::collection::vec(ev_strategy(), 4..28),
+        proptest::collection::vec(ev_strategy(), 4..40),
         prop_oneof![
             proptest::collection::vec(any::<u8>(), 0..64),
             proptest::collection::vec(any::<u8>(), 64..1024),
@@ -345,10 +345,30 @@ pub fn run(ctx: &mut Ctx) {
         });
         (a.join().unwrap(), b.join().unwrap(), c.join().unwrap())
     });
-    let (raft, index, acc) = match (raft, index, acc) {
-        (Ok(a), Ok(b), Ok(c)) => (a, b, c),
-        (a, b, c) => {
-            for (n, e) in [("raft", a.err()), ("index_payloads", b.err()), ("acceptor_p2", c.err())] {
+    let acc = match acc {
+        Ok(a) => {
+            ctx.extra.insert("paxos_acceptor_p2_in_simulator".into(), "compiles".into());
+            Some(a)
+        }
+        Err(p) if p.msg.contains("not yet implemented") || p.msg.contains("not implemented") => {
+            // the simulator refuses the component (e.g. `batch not implemented for kind Optional`):
+            // recorded, the sub-check is skipped
+            ctx.extra.insert(
+                "paxos_acceptor_p2_in_simulator".into(),
+                format!("rejected by the simulator: {}", p.msg).into(),
+            );
+            ctx.count_excluded("paxos acceptor_p2: not supported by the simulator at this commit", 1);
+            None
+        }
+        Err(p) => {
+            ctx.inconclusive(format!("cannot compile acceptor_p2: {} at {}", p.msg, p.loc));
+            return;
+        }
+    };
+    let (raft, index) = match (raft, index) {
+        (Ok(a), Ok(b)) => (a, b),
+        (a, b) => {
+            for (n, e) in [("raft", a.err()), ("index_payloads", b.err())] {
                 if let Some(p) = e {
                     ctx.inconclusive(format!("cannot compile {n}: {} at {}", p.msg, p.loc));
                 }
@@ -362,7 +382,7 @@ pub fn run(ctx: &mut Ctx) {
     let commits = Cell::new(0u64);
 
     let (rc, rp) = &raft;
-    ctx.check("raft-tapes", tier.pick(300, 20000), raft_strategy(), |c: &RaftCase, obs: &mut Obs| {
+    ctx.check("raft-tapes", tier.pick(4000, 80000), raft_strategy(), |c: &RaftCase, obs: &mut Obs| {
         obs.class("raft_3");
         let committed = match run_raft(rc, rp, c) {
             Ok(c) => c,
@@ -440,36 +460,37 @@ pub fn run(ctx: &mut Ctx) {
         Ok(())
     });
 
-    let (ac, ap) = &acc;
-    let acc_strategy = |with_tape: bool, max_p2a: usize| {
-        (
-            proptest::collection::vec((0u8..NA as u8, 0u32..4, 0u8..NP as u8), 0..4),
-            proptest::collection::vec((0u8..NA as u8, 0u8..NP as u8, 0u32..4, 0usize..2), 1..=max_p2a),
-            proptest::collection::vec(any::<u8>(), 0..300),
-        )
-            .prop_map(move |(ballots, mut p2as, tape)| {
-                // a proposer sends one p2a per (acceptor, ballot, slot)
-                p2as.sort();
-                p2as.dedup();
-                AccCase {
-                    ballots,
-                    p2as,
-                    tape: if with_tape { Some(tape) } else { None },
-                }
-            })
-    };
-    let body = |c: &AccCase, obs: &mut Obs| -> Result<(), Fail> {
-        obs.class("paxos acceptor_p2");
-        obs.nontrivial(c.p2as.len() >= 2 && !c.ballots.is_empty());
-        let runs = run_acceptor(ac, ap, c).map_err(|p| panic_fail("paxos acceptor_p2", &p))?;
-        execs.set(execs.get() + runs.len() as u64);
-        for r in &runs {
-            check_acceptor(c, r)?;
-        }
-        Ok(())
-    };
-    ctx.check("paxos-acceptor-p2-exhaustive", tier.pick(40, 800), acc_strategy(false, 3), &body);
-    ctx.check("paxos-acceptor-p2-tapes", tier.pick(150, 4000), acc_strategy(true, 8), &body);
+    if let Some((ac, ap)) = &acc {
+        let acc_strategy = |with_tape: bool, max_p2a: usize| {
+            (
+                proptest::collection::vec((0u8..NA as u8, 0u32..4, 0u8..NP as u8), 0..4),
+                proptest::collection::vec((0u8..NA as u8, 0u8..NP as u8, 0u32..4, 0usize..2), 1..=max_p2a),
+                proptest::collection::vec(any::<u8>(), 0..300),
+            )
+                .prop_map(move |(ballots, mut p2as, tape)| {
+                    // a proposer sends one p2a per (acceptor, ballot, slot)
+                    p2as.sort();
+                    p2as.dedup();
+                    AccCase {
+                        ballots,
+                        p2as,
+                        tape: if with_tape { Some(tape) } else { None },
+                    }
+                })
+        };
+        let body = |c: &AccCase, obs: &mut Obs| -> Result<(), Fail> {
+            obs.class("paxos acceptor_p2");
+            obs.nontrivial(c.p2as.len() >= 2 && !c.ballots.is_empty());
+            let runs = run_acceptor(ac, ap, c).map_err(|p| panic_fail("paxos acceptor_p2", &p))?;
+            execs.set(execs.get() + runs.len() as u64);
+            for r in &runs {
+                check_acceptor(c, r)?;
+            }
+            Ok(())
+        };
+        ctx.check("paxos-acceptor-p2-exhaustive", tier.pick(40, 800), acc_strategy(false, 3), &body);
+        ctx.check("paxos-acceptor-p2-tapes", tier.pick(150, 4000), acc_strategy(true, 8), &body);
+    }
 
     ctx.extra.insert("program_executions_checked".into(), execs.get().into());
     ctx.extra.insert("raft_runs_with_a_commit".into(), commits.get().into());
